@@ -170,7 +170,7 @@ class Neutral:
         self.rules = set(rules)
         self.hits = set()
 
-    def operand(self, parent, pos, cu, ce):
+    def operand(self, parent, pos, cu, ce, pu=None):
         from sqlalchemy.sql import elements as E
 
         if "A" in self.rules and parent == "concat" and cu[0] in ARITH and not (cu[0] == "add" and utype(cu) == "str"):
@@ -181,7 +181,9 @@ class Neutral:
         ):
             self.hits.add("C")
             return E.Grouping(ce)
-        if "F" in self.rules and parent in ("add", "mul") and cu[0] == parent and utype(cu) == "num":
+        if "F" in self.rules and parent in ("add", "mul") and cu[0] == parent and (
+            utype(cu) == "num" or (pu is not None and utype(pu) == "num")
+        ):
             # keep `a + (b + c)` / `a * (b * c)` nested: floating point + and * are not
             # exactly associative, re-association may legitimately change the last bits
             self.hits.add("F")
@@ -205,7 +207,7 @@ def to_sa(u, neutral=None):
     def opd(pos):
         e = to_sa(u[pos], neutral)
         if neutral is not None:
-            e = neutral.operand(k, pos, u[pos], e)
+            e = neutral.operand(k, pos, u[pos], e, u)
         return e
 
     if k == "col":
@@ -267,18 +269,16 @@ def to_sa(u, neutral=None):
     if k == "neg":
         return -opd(1)
     if k == "not":
-        c = u[1]
-        if (
-            neutral is not None
-            and "B" in neutral.rules
-            and c[0] in ("is", "isnot")
-            and c[2][0] not in ("null", "true", "false")
-        ):
-            neutral.hits.add("B")
-            a, b = to_sa(c[1], neutral), to_sa(c[2], neutral)
-            a, b = neutral.operand(c[0], 1, c[1], a), neutral.operand(c[0], 2, c[2], b)
-            return a.is_not(b) if c[0] == "is" else a.is_(b)
-        return ~sub(u[1])
+        c = sub(u[1])
+        if neutral is not None and "B" in neutral.rules:
+            from sqlalchemy.sql import elements as E, operators as O
+
+            # the defect's signature on the built element: a binary IS / IS NOT whose negate
+            # operator is the operator itself (whatever API path produced it)
+            if isinstance(c, E.BinaryExpression) and c.operator in (O.is_, O.is_not) and c.negate is c.operator:
+                neutral.hits.add("B")
+                return c.left.is_not(c.right) if c.operator is O.is_ else c.left.is_(c.right)
+        return ~c
     if k == "between":
         return opd(1).between(opd(2), opd(3))
     if k == "and":
@@ -1024,3 +1024,293 @@ def gen_tables_lean(T):
     L.append("")
     L.append("end SaVerif.Expr.Gen")
     return "\n".join(L) + "\n"
+
+
+# --------------------------------------------------------------------------- lexer of emitted SQL
+# Used only when the compiler's text differs from the model's text: both texts are then read by
+# the model's backend grammar (lean driver `expr readtok`) and compared as *readings*, so that a
+# redundant pair of parentheses is not a disagreement while a missing one is.
+import re as _re
+
+_TOK = _re.compile(
+    r"""\s*(?:
+      (?P<str>'(?:[^']|'')*')
+    | (?P<num>\d+(?:\.\d+)?)
+    | (?P<ph>\?|%s|%\([^)]*\)s|__\[POSTCOMPILE_[^\]]*\]|:[A-Za-z_]\w*)
+    | (?P<id>[A-Za-z_][A-Za-z_0-9.]*|"(?:[^"]|"")*"|`(?:[^`]|``)*`)
+    | (?P<op><=>|\|\||!=|<>|<=|>=|%%|[=<>+\-*/%,()])
+    )""",
+    _re.X,
+)
+_KW = {"AND", "OR", "NOT", "IS", "IN", "LIKE", "ILIKE", "BETWEEN", "ESCAPE", "CASE", "WHEN", "THEN", "ELSE", "END",
+       "CAST", "AS", "NULL", "DISTINCT", "FROM", "VALUES", "SELECT", "TRUE", "FALSE", "COLLATE"}
+_INFIX = {"+": "plus", "-": "minus", "*": "star", "/": "slash", "%": "percent", "%%": "percent", "||": "concat",
+          "=": "eq", "!=": "ne", "<>": "ne", "<": "lt", "<=": "le", ">": "gt", ">=": "ge", "<=>": "nseq", ",": "comma"}
+
+
+def lex_sql(text):
+    """-> list of driver tokens (`a`, `p:<sym>`, `i:<sym>`, `o:<bracket>`, `c:<bracket>`) or None"""
+    raw = []
+    pos = 0
+    text = text.strip()
+    while pos < len(text):
+        m = _TOK.match(text, pos)
+        if not m or m.end() == pos:
+            return None
+        pos = m.end()
+        if m.group("str") or m.group("num") or m.group("ph"):
+            raw.append(("atom", m.group(0).strip()))
+        elif m.group("id"):
+            w = m.group("id")
+            raw.append(("kw", w.upper()) if w.upper() in _KW else ("id", w))
+        else:
+            raw.append(("op", m.group("op")))
+    out = []
+    stack = []
+
+    def operand_before():
+        return bool(out) and (out[-1] == "a" or out[-1].startswith("c:"))
+
+    i = 0
+    n = len(raw)
+
+    def kw(j, *words):
+        return all(j + k < n and raw[j + k] == ("kw", w) for k, w in enumerate(words))
+
+    while i < n:
+        kind, v = raw[i]
+        if kind == "atom":
+            out.append("a")
+            i += 1
+        elif kind == "id":
+            if i + 1 < n and raw[i + 1] == ("op", "("):
+                out.append("o:fn")
+                stack.append("fn")
+                i += 2
+            else:
+                out.append("a")
+                i += 1
+        elif kind == "kw":
+            if v in ("NULL", "TRUE", "FALSE"):
+                out.append("a")
+                i += 1
+            elif v == "CAST" and i + 1 < n and raw[i + 1] == ("op", "("):
+                out.append("o:cast")
+                stack.append("cast")
+                i += 2
+            elif v == "AS":
+                out.append("i:as_")
+                # the type name: everything up to the parenthesis that closes the CAST
+                depth, j = 0, i + 1
+                while j < n and not (raw[j] == ("op", ")") and depth == 0):
+                    if raw[j] == ("op", "("):
+                        depth += 1
+                    elif raw[j] == ("op", ")"):
+                        depth -= 1
+                    j += 1
+                out.append("a")
+                i = j
+            elif v == "CASE":
+                if kw(i + 1, "WHEN"):
+                    out.append("o:caseSearched")
+                    stack.append("caseSearched")
+                    i += 2
+                else:
+                    out.append("o:caseSimple")
+                    stack.append("caseSimple")
+                    i += 1
+            elif v == "WHEN":
+                out.append("i:when_")
+                i += 1
+            elif v == "THEN":
+                out.append("i:then_")
+                i += 1
+            elif v == "ELSE":
+                out.append("i:else_")
+                i += 1
+            elif v == "END":
+                if not stack or not stack[-1].startswith("case"):
+                    return None
+                out.append("c:" + stack.pop())
+                i += 1
+            elif v == "AND":
+                out.append("i:and_")
+                i += 1
+            elif v == "OR":
+                out.append("i:or_")
+                i += 1
+            elif v == "ESCAPE":
+                out.append("i:escape")
+                i += 1
+            elif v == "IS":
+                if kw(i + 1, "NOT", "DISTINCT", "FROM"):
+                    out.append("i:isNotDistinct")
+                    i += 4
+                elif kw(i + 1, "DISTINCT", "FROM"):
+                    out.append("i:isDistinct")
+                    i += 3
+                elif kw(i + 1, "NOT"):
+                    out.append("i:isNot")
+                    i += 2
+                else:
+                    out.append("i:is_")
+                    i += 1
+            elif v == "NOT":
+                if operand_before() and kw(i + 1, "IN"):
+                    out.append("i:notIn")
+                    i += 2
+                elif operand_before() and kw(i + 1, "LIKE"):
+                    out.append("i:notLike")
+                    i += 2
+                elif operand_before() and kw(i + 1, "ILIKE"):
+                    out.append("i:notIlike")
+                    i += 2
+                elif operand_before() and kw(i + 1, "BETWEEN"):
+                    out.append("i:notBetween")
+                    i += 2
+                else:
+                    out.append("p:not_")
+                    i += 1
+            elif v == "IN":
+                out.append("i:in_")
+                i += 1
+            elif v == "LIKE":
+                out.append("i:like")
+                i += 1
+            elif v == "ILIKE":
+                out.append("i:ilike")
+                i += 1
+            elif v == "BETWEEN":
+                out.append("i:between")
+                i += 1
+            elif v == "VALUES":
+                out.append("p:values")
+                i += 1
+            elif v == "COLLATE":
+                out.append("i:collate")
+                i += 1
+            else:
+                return None
+        else:  # op
+            if v == "(":
+                if i + 1 < n and raw[i + 1] == ("kw", "SELECT") or (kw(i + 1, "VALUES", "SELECT")):
+                    depth, j = 0, i + 1
+                    while j < n and not (raw[j] == ("op", ")") and depth == 0):
+                        if raw[j] == ("op", "("):
+                            depth += 1
+                        elif raw[j] == ("op", ")"):
+                            depth -= 1
+                        j += 1
+                    if j >= n:
+                        return None
+                    # a sub-select in parentheses is one parenthesised atom
+                    out += ["o:paren", "a", "c:paren"]
+                    i = j + 1
+                else:
+                    out.append("o:paren")
+                    stack.append("paren")
+                    i += 1
+            elif v == ")":
+                if not stack or stack[-1].startswith("case"):
+                    return None
+                out.append("c:" + stack.pop())
+                i += 1
+            elif v == "-" and not operand_before():
+                out.append("p:neg")
+                i += 1
+            else:
+                out.append("i:" + _INFIX[v])
+                i += 1
+    if stack:
+        return None
+    return out
+
+
+def _strip_parens(s):
+    return _re.sub(r"[()\s]", "", s)
+
+
+def reconcile_render(ctx, cases, impl_out, model_out, pid):
+    """Second look at the rendering disagreements (only reached when the compiler's text differs
+    from the model's): a pair whose texts differ *only in parentheses* and which the model's
+    backend grammar reads as the same tree is not a disagreement about anything the property
+    speaks of; a pair the grammar reads differently from the tree the expression means is a
+    model-level failing input (reported, with the dialect, even where no backend can execute it).
+
+    -> (impl_out with benign pairs replaced by the model's text, list of model-level failures)"""
+    from harness import vlib
+
+    idx = [i for i, (a, b) in enumerate(zip(impl_out, model_out)) if a != b and a.startswith("ok ") and b.startswith("ok ")]
+    if not idx or not ctx.driver_ok():
+        return impl_out, []
+    reqs, meta = [], []
+    for i in idx[:4000]:
+        pa, pb = impl_out[i].split(" "), model_out[i].split(" ")
+        if pa[1] != pb[1]:
+            continue
+        real, model = vlib.dec_str(pa[2]), vlib.dec_str(pb[2])
+        toks = lex_sql(real)
+        if toks is None:
+            continue
+        d = cases[i]["dialect"]
+        reqs.append("expr readtok %s %s" % (d, " ".join(toks)))
+        reqs.append("expr readu %s %s" % (d, " ".join(wire(cases[i]["u"]))))
+        meta.append((i, real, model))
+    if not reqs:
+        return impl_out, []
+    out = ctx.driver(reqs)
+    impl2 = list(impl_out)
+    failures = []
+    for k, (i, real, model) in enumerate(meta):
+        rt, ru = out[2 * k].split(" "), out[2 * k + 1].split(" ")
+        if rt[0] != "ok" or ru[0] != "ok" or len(ru) < 3:
+            continue
+        reading_real, reading_model, intended = rt[1], ru[1], ru[2]
+        if reading_real == reading_model and _strip_parens(real) == _strip_parens(model):
+            impl2[i] = model_out[i]
+            ctx.count("render=equal-up-to-redundant-parentheses")
+            continue
+        if reading_real != intended and reading_real != "noparse" and _strip_parens(real) == _strip_parens(model):
+            # same tokens as the model's text, parenthesised differently, and read by the grammar
+            # as another tree than the one the expression means
+            failures.append(
+                {
+                    "case": {"u": cases[i]["u"], "dialect": cases[i]["dialect"], "mode": "model-level"},
+                    "detail": {
+                        "compiler_text": real,
+                        "grammar_reading_of_compiler_text": vlib.dec_str(reading_real) if reading_real.startswith("s:") else reading_real,
+                        "tree_the_expression_means": vlib.dec_str(intended),
+                        "note": "model-level: the %s grammar table of lean/SaVerif/Model/ExprGrammar.lean groups the emitted text differently from the expression tree" % cases[i]["dialect"],
+                    },
+                }
+            )
+    if impl2 != list(impl_out):
+        ctx.assumptions.append(
+            "%s: the compiler's text differs from the model's text on some cases only by redundant parentheses "
+            "(same reading by the backend grammar); these are not counted as correspondence disagreements" % pid
+        )
+    return impl2, failures
+
+
+# --------------------------------------------------------------------------- the theorem's fragment
+def frag_num(rng, d):
+    """numeric tree of the Lean fragment NumU over the integer columns"""
+    if d <= 0 or rng.random() < 0.2:
+        return ["col", rng.choice(["ia", "ib", "ic"])] if rng.random() < 0.7 else ["li", rng.choice(INT_LITS)]
+    k = rng.choice(["add", "sub", "mul", "mod", "neg", "add", "mul"])
+    if k == "neg":
+        return ["neg", frag_num(rng, d - 1)]
+    return [k, frag_num(rng, d - 1), frag_num(rng, d - 1)]
+
+
+def frag_bool(rng, d):
+    """boolean tree of the Lean fragment BoolU (without is_/is_not between general operands)"""
+    if d <= 0 or rng.random() < 0.25:
+        x = rng.random()
+        if x < 0.2:
+            return [rng.choice(["eq", "ne", "is", "isnot"]), frag_num(rng, 1), ["null"]]
+        return [rng.choice(CMP), frag_num(rng, rng.randint(0, 2)), frag_num(rng, rng.randint(0, 2))]
+    k = rng.choice(["and", "or", "not", "and", "or"])
+    if k == "not":
+        return ["not", frag_bool(rng, d - 1)]
+    return [k, [frag_bool(rng, d - 1) for _ in range(rng.choice([1, 2, 2, 3]))]]
